@@ -22,13 +22,26 @@ func genReader(r *rand.Rand, n int, w *bufio.Writer) {
 		if r.Intn(10) == 0 {
 			bl = r.Intn(4)
 		}
+		// one buffer in a thousand is longer than 65535 octets and is read across the 65535 / 65536 position
+		// (the property is about every buffer; offsets kept in 16 bits wrap there)
+		big := r.Intn(1000) == 0
+		if big {
+			bl = 65500 + r.Intn(6000)
+		}
 		buf := make([]byte, bl)
 		r.Read(buf)
 		nops := r.Intn(41)
+		if big {
+			nops = 8 + r.Intn(12)
+		}
 		ops := make([]string, nops)
 		pos := 0
 		for j := range ops {
 			switch k := r.Intn(12); {
+			case big && j == 0:
+				v := 65490 + r.Intn(60)
+				ops[j] = "r:" + strconv.Itoa(v)
+				pos += v
 			case k == 0:
 				ops[j] = "u8"
 			case k == 1:
